@@ -56,7 +56,9 @@ where
                     if let (Some(start), Some(end)) = (r.alignment_start(), r.alignment_end()) {
                         let alignment_interval = (start..=end).into();
 
-                        if self.interval.intersects(alignment_interval) {
+                        if r.reference_sequence_id() == Some(self.reference_sequence_id)
+                            && self.interval.intersects(alignment_interval)
+                        {
                             *record = r;
                             return Ok(1);
                         }
